@@ -148,7 +148,7 @@ def validate(results, work, module="Trace_Ledger", timeout=1200, max_lines=4000,
                        deadlock=True)
         done = re.search(r'<<"DONE", (\d+), (\d+)>>', res.out)
         if res.rc != 0 or not done or int(done.group(1)) != len(owner):
-            raise vlib.Infra("TLC trace validation failed on %s (rc=%s):\n%s" % (path, res.rc, res.out[-3000:]))
+            raise vlib.Infra("TLC trace validation failed on %s (rc=%s):\n%s" % (path, res.rc, res.out[-700:]))
         for m in re.finditer(r'^"ISSUE (.*)"\s*$', res.out, re.M):
             try:
                 arr = json.loads(json.loads('"' + m.group(1) + '"'))
@@ -185,6 +185,34 @@ def self_test(result, work, mutate, expect_tag=None):
     if not r2.issues or (expect_tag and expect_tag not in tags):
         raise vlib.Infra("binding self-test failed: corrupted trace was accepted (issues=%r)" % (r2.issues[:3],))
     return len(r2.issues)
+
+
+def classify_known(pid, results, own_tags, work):
+    """KNOWN-FINDING classification (DESIGN.md 3.5): returns a matcher(result, issue) -> finding or None.
+    An own-tag issue is explained by an open finding iff the trace is accepted (for that issue) with the
+    finding's deviation switched on AND the finding's concrete signature matches the failing step."""
+    import findings as F
+    fs = [f for f in vlib.open_findings(pid) if f.get("deviation")]
+    explained = {}
+    if not fs:
+        return lambda r, i: None
+    for r in results:
+        own = [i for i in r.issues if i[1] in own_tags]
+        if not own:
+            continue
+        for f in fs:
+            r2 = RunResult(r.name, r.doc)
+            r2.trace, r2.lines = r.trace, r.lines
+            validate([r2], work, deviations=[f["deviation"]])
+            left = {(i[0], i[1], i[2]) for i in r2.issues}
+            sig = F.SIGS.get(f["id"])
+            for i in own:
+                if (i[0], i[1], i[2]) in left:
+                    continue
+                ev = F.block_event(r, i[0])
+                if sig and sig(r, i, ev):
+                    explained[(r.name, i[0], i[1], i[2])] = f
+    return lambda r, i: explained.get((r.name, i[0], i[1], i[2]))
 
 
 def finish(pid, results, stats, own_tags, t0, mc=None, level="model_checking", rule="", samples=None,
